@@ -234,6 +234,21 @@ def eval_validation(fx, v, depth=0):
                 pass
             elif nm == "insecure_disable_signature_validation":
                 st["sig"] = False
+            elif (v.d.get("path") or (None,))[0] == "required_spec_claims" and nm in ("clear", "insert", "remove", "reserve", "len", "contains", "is_empty"):
+                # the public HashSet of required claims edited directly
+                arg = const_value(call.kids[1]) if len(call.kids) > 1 else None
+                if arg is None and len(call.kids) > 1:
+                    inner = peel(call.kids[1])
+                    for x in walk(inner):
+                        if isinstance(const_value(x), str):
+                            arg = const_value(x)
+                            break
+                if nm == "clear":
+                    st["required"] = set()
+                elif nm == "insert":
+                    st["required"] = (set(st["required"]) | {arg}) if isinstance(st["required"], set) and isinstance(arg, str) else "unknown"
+                elif nm == "remove":
+                    st["required"] = (set(st["required"]) - {arg}) if isinstance(st["required"], set) and isinstance(arg, str) else "unknown"
             else:
                 st["unknown"].append("passed as &mut to %s" % (t.get("resolved") or t.get("callee")))
             out.append(st)
@@ -292,6 +307,16 @@ def token_verbatim(fx, fn, v, reach, depth=0):
         if lits == [None, ".", None, ".", None] and names == ["protected", "payload", "signature"]:
             return ("json", args)
         return (None, "rebuilt with template %r over %r (expected {protected}.{payload}.{signature})" % (lits, names))
+    # any other way of assembling the same text (`[a, b, c].join(".")`, `a + "." + b ..`, push_str): token normal form
+    import strmodel
+    fm = strmodel.forms(fn, p, ())
+    if fm is not None and all(x == fm[0] for x in fm):
+        want = ".".join(strmodel.F(n_) for n_ in ("protected", "payload", "signature"))
+        srcs = [x for x in walk(p) if x.kind == "field" and x.d.get("name") in ("protected", "payload", "signature")]
+        if fm[0] == want and srcs and all(x.d.get("adt") == "SDJWTJson" for x in srcs):
+            return ("json", srcs)
+        if strmodel.F("protected") in fm[0] or strmodel.F("payload") in fm[0] or strmodel.F("signature") in fm[0]:
+            return (None, "rebuilt as %r (expected {protected}.{payload}.{signature})" % fm[0])
     q = _strip_payload(p)
     if q.kind == "param" and q.fn is fn and depth < 3:
         kinds = []
